@@ -85,6 +85,7 @@ structure LoopDesc where
   /-- f is called synchronously as the last statement of an infinite loop that spawns nothing and
   whose timer is created before the loop -/
   ok : Bool
+  deriving DecidableEq, Repr
 
 def loopOf : Kind → LoopDesc
   | .doOnce => { arms := [], checksCtxFirst := false, resetAfterSelect := false,
@@ -131,9 +132,9 @@ def consume (t : Thread) : Arm → Thread
     else t
   | _ => t
 
-/-- `jitterDuration(interval, jitter)`: `interval` plus an offset in `[-jitter, jitter]` -/
+/-- `jitterDuration(interval, jitter)`: `interval` plus an offset in `[-|jitter|, |jitter|]` -/
 def armTimer (v : View) (t : Thread) (off : Int) : Option TimerSt :=
-  if -t.jitter ≤ off ∧ off ≤ t.jitter then some (.armed (v.now + t.interval + off)) else none
+  if -(t.jitter.natAbs : Int) ≤ off ∧ off ≤ t.jitter.natAbs then some (.armed (v.now + t.interval + off)) else none
 
 /-- One atomic step of thread `t`; `c` = which `select` arm, `off` = the random jitter offset. -/
 def threadStep (v : View) (t : Thread) (c : Nat) (off : Int) : Option (Thread × Eff) :=
@@ -185,12 +186,15 @@ def threadStep (v : View) (t : Thread) (c : Nat) (off : Int) : Option (Thread ×
   | .exiting => some ({ t with pc := .exited, timer := .idle }, .done)
   | .exited => none
 
+/-- the `select` of the trigger function and the capacity of its channel -/
+def fnSelOf : Kind → List Arm × Int
+  | .trigger => (trigFnSelect, trigChanCap)
+  | .pot => (potFnSelect, potChanCap)
+  | _ => ([], 0)
+
 /-- A call of the trigger function returned by `Trigger` / `PeriodicOrTrigger`. -/
 def trigSend (t : Thread) : Option Thread :=
-  let sc : List Arm × Int := match t.kind with
-    | .trigger => (trigFnSelect, trigChanCap)
-    | .pot => (potFnSelect, potChanCap)
-    | _ => ([], 0)
+  let sc := fnSelOf t.kind
   if sc.1.contains (.send "c") && decide ((if t.token then 1 else 0 : Int) < sc.2) then
     some { t with token := true, owed := true }
   else if sc.1.contains .dflt then some { t with owed := true }
@@ -338,7 +342,7 @@ inductive Reach (s0 : GState) : GState → Prop where
 
 /-- offsets the jitter may take -/
 def offsets (j : Int) : List Int :=
-  if j ≤ 0 then [0] else (List.range (2 * j.toNat + 1)).map fun k => Int.ofNat k - j
+  (List.range (2 * j.natAbs + 1)).map fun k => Int.ofNat k - Int.ofNat j.natAbs
 
 /-- all internal successors: goroutine steps, timer firings that are due, stopper steps -/
 def internalSucc (s : GState) : List GState :=
